@@ -211,8 +211,8 @@ def reach(a: str, b: str) -> bool:
 
 def sid_laws_after_change(a: str) -> bool:
     """
-    With spil's caches ON: siblings() / children() / exists(), then an entity EPRE+a+ESUF is created, then again: the later answers
-    reflect the change.
+    With spil's caches ON: siblings() / children() / exists(), then an entity EPRE+a+ESUF is created, then again, then it is
+    removed, then again: the later answers reflect each change.
     pre: 1 <= len(a) <= N
     pre: ':' not in a and '?' not in a and '*' not in a and '>' not in a and '<' not in a and ',' not in a and '/' not in a
     post: _
@@ -241,6 +241,14 @@ def sid_laws_after_change(a: str) -> bool:
         return fail("siblings-stale-after-creation")
     if is_kid and new not in k2 and sid.keytype != conf.leaf_keys.get(sid.basetype):
         return fail("children-stale-after-creation")
+    # ... and the entity is removed again
+    STUB.items = [FIXED] if FIXED else []
+    s3 = [str(x) for x in _with_stub(lambda: sid.siblings())]
+    k3 = [str(x) for x in _with_stub(lambda: sid.children())]
+    if _with_stub(lambda: Sid(new).exists()):
+        return fail("exists-does-not-reflect-removal")
+    if new in s3 or new in k3:
+        return fail("siblings-or-children-stale-after-removal")
     return True
 
 
